@@ -164,7 +164,8 @@ def main(tier):
         rate = 1.0
         st0 = case["steps"][0]
         if case["kind"] == "long":
-            parts = 1   # the whole interval in ONE update call
+            parts = 1   # the whole interval in ONE update call, with enough grains for thousands of solver steps
+            cfg = (0, 0, 4, 50, 125, 3, 5)
         elif case["kind"] == "single" and st0["T"] == [9, 200] and st0["g"]["via"] == "const":
             # short history as 50 very short calls at extreme rate factors (laboratory 1e3, geological 1e-15)
             parts, rate = 50, [1e3, 1e-15, 1.0][j % 3]
